@@ -315,6 +315,11 @@ func (g *Gen) Verify(c *Contract) (s *Session) {
 	for _, r := range c.Requires {
 		s.assert(fx.evalBool(r.E, env))
 	}
+	if c.Replay != nil {
+		if sv, ok := fx.eval(c.Replay, env).V.(StrV); ok {
+			s.ReplayStr = &sv
+		}
+	}
 	s.cover("cover", "requires", []string{"vacuity"}, "true", fx.posOf(fn.Pos()), "preconditions are satisfiable")
 	exits := fr.run(st)
 	fx.finish(fr, exits)
